@@ -36,7 +36,8 @@ class C06World(TableWorld):
     def __init__(self, backend: str, variant: str, rep: Report, cfg: Dict[str, Any]):
         self.variant = variant
         n = {"commit_old": 2, "rollback_old": 2, "append_fresh": 2, "commit_old+committer": 3,
-             "commit_old+fresh": 3, "two_old": 3}[variant]
+             "commit_old+fresh": 3, "two_old": 3, "append_fresh_2gc": 2}[variant]
+        self.max_pauses = cfg.get("max_pauses", 0)
         super().__init__(backend, "separate", n, build_template, name="c06")
         self.rep, self.cfg = rep, cfg
         self.outcomes: Dict[Any, int] = {}
@@ -66,7 +67,11 @@ class C06World(TableWorld):
 
     def actors(self):
         g = self.handle(0)
-        out = [("G", lambda: g.garbage_collect(GRACE_MS))]
+        if self.variant == "append_fresh_2gc":
+            # two collection runs during one transaction (the second one hours later, see the pause deviation)
+            out = [("G", lambda: (g.garbage_collect(GRACE_MS), g.garbage_collect(GRACE_MS)))]
+        else:
+            out = [("G", lambda: g.garbage_collect(GRACE_MS))]
         v = self.variant
         if v in ("commit_old", "commit_old+committer", "commit_old+fresh", "two_old"):
             out.append(("T", self.txs[0].commit))
@@ -74,13 +79,34 @@ class C06World(TableWorld):
             out.append(("T", self.txs[0].rollback))
         if v == "two_old":
             out.append(("U", self.txs[1].commit))
-        if v == "append_fresh":
+        if v in ("append_fresh", "append_fresh_2gc"):
             h = self.handle(1)
             out.append(("T", lambda: h.append_records([row(60)])))
         if v in ("commit_old+committer", "commit_old+fresh"):
             h2 = self.handle(2)
             out.append(("C", lambda: h2.append_records([row(70)])))
         return out
+
+    # ---- deviation: the transaction's process stalls for two hours (longer than the grace period) ----------
+    def extra_options(self, ex: Execution):
+        opts = []
+        for a in ex.actors:
+            if a.name != "T":
+                continue
+            if a.frozen:
+                opts.append(("resume", "T"))
+            elif a.state != "done" and ex.jumps < self.max_pauses and a.steps > 0:
+                opts.append(("stall+2h", "T"))
+        return opts
+
+    def apply_extra(self, ex: Execution, opt) -> None:
+        kind, name = opt
+        for a in ex.actors:
+            if a.name.split(".", 1)[0] == name:
+                a.frozen = (kind != "resume")
+        if kind != "resume":
+            ENV.clock = round(ENV.clock + OLD_S, 6)
+            ex.jumps += 1
 
     def check(self, ex: Execution) -> None:
         acts = {a.name: a for a in ex.actors}
@@ -94,7 +120,7 @@ class C06World(TableWorld):
         else:
             cur = set(st.current_rows())
             want = {"T": [50], "U": [51], "C": [70]}
-            if self.variant == "append_fresh":
+            if self.variant in ("append_fresh", "append_fresh_2gc"):
                 want["T"] = [60]
             if self.variant == "rollback_old":
                 want.pop("T")
@@ -122,7 +148,7 @@ def run_config(cfg: Dict[str, Any]) -> Dict[str, Any]:
     w = C06World(cfg["backend"], cfg["variant"], rep, cfg)
     try:
         exp = Explorer(w, bound=cfg.get("bound"), seed=cfg["seed"], clock_mode="TICK", horizon=4000,
-                       max_exec=cfg.get("max_exec"))
+                       max_exec=cfg.get("max_exec"), has_extra=bool(cfg.get("max_pauses")))
         exp.on_complete = w.check
         stats = exp.explore()
         exp.visited.clear()
@@ -152,15 +178,20 @@ def run_config(cfg: Dict[str, Any]) -> Dict[str, Any]:
 def configs(tier: str, seed: int) -> List[Dict[str, Any]]:
     out = []
 
-    def add(backend, variant, bound=None, sample=False):
-        out.append({"id": f"{backend}/{variant}" + (f"/b{bound}" if bound is not None else ""), "backend": backend,
-                    "variant": variant, "bound": bound, "tier": tier, "seed": seed, "sample": sample})
+    def add(backend, variant, bound=None, sample=False, max_pauses=0):
+        out.append({"id": f"{backend}/{variant}" + (f"/stall{max_pauses}" if max_pauses else "")
+                    + (f"/b{bound}" if bound is not None else ""), "backend": backend,
+                    "variant": variant, "bound": bound, "tier": tier, "seed": seed, "sample": sample,
+                    "max_pauses": max_pauses})
 
     for b in ("local", "s3"):
         add(b, "commit_old", sample=(b == "s3"))
         add(b, "rollback_old")
         if tier != "quick" or b == "s3":
             add(b, "append_fresh")
+        # the committing process stalls for 2 h (> grace) at any point; the collector runs during the stall
+        add(b, "commit_old", bound=0 if tier == "quick" else 2, max_pauses=1)
+        add(b, "append_fresh_2gc", bound=1 if tier == "quick" else 2, max_pauses=1)
         if tier == "quick":
             add(b, "commit_old+committer", bound=1)
         else:
@@ -181,6 +212,8 @@ def run(tier: str, seed: int) -> Report:
         "the transaction's data file and marker are aged 2 h before the exploration starts (file ages on the far side of grace); "
         "the append_fresh variant covers the near side",
         "2-actor configurations unbounded; 3-actor configurations under the preemption bound in the config id",
+        "stall deviation: the transaction's process is frozen and the clock jumps 2 h (the statement bounds the duration of the "
+        "collection run by the grace period, not the transaction's); configurations with it are preemption-bounded",
     ]
     return rep
 
@@ -191,7 +224,7 @@ def replay(case: Dict[str, Any]) -> Dict[str, Any]:
     rep = Report("C06", cfg["tier"], cfg["seed"], "model_checking")
     w = C06World(cfg["backend"], cfg["variant"], rep, cfg)
     try:
-        exp = Explorer(w, seed=cfg["seed"], clock_mode="TICK")
+        exp = Explorer(w, seed=cfg["seed"], clock_mode="TICK", has_extra=bool(cfg.get("max_pauses")))
         exp.shared_keys, exp.shared_prefixes = set(d["shared_keys"]), set(d["shared_prefixes"])
         ex = exp.execute(d["choices"])
         w.check(ex)
